@@ -142,7 +142,7 @@ pub fn run(args: &Args) {
     }
     let mut st = Stats::default();
     for (i, l) in lines.iter().enumerate() {
-        replay_line(&mut st, &prop, i, l);
+        guard_case(&mut st, &prop, "replay-jax", l, |st| replay_line(st, &prop, i, l));
     }
     finish(st, args.req("out"), args.req("replay-dir"), json!({"lines": lines.len()}));
 }
@@ -150,7 +150,8 @@ pub fn run(args: &Args) {
 pub fn replay_one(v: &Value) -> bool {
     silence_panics();
     let mut st = Stats::default();
-    replay_line(&mut st, v["property"].as_str().unwrap_or("C09"), 0, &v["line"]);
+    let prop = v["property"].as_str().unwrap_or("C09").to_string();
+    guard_case(&mut st, &prop, "replay-jax", &v["line"], |st| replay_line(st, &prop, 0, &v["line"]));
     for x in &st.violations {
         println!("reproduced: {}", x.what);
         if let Some(d) = x.replay["diffs"].as_array() {
